@@ -596,7 +596,8 @@ fn main() {
             cx.class = fnv(cx.class, &out);
             out
         };
-        // honest + invalid phase
+        // honest + invalid phase (at least one shred of slice 1, so that the later conflict is a conflict)
+        feed(&mut cx, s1, 20 + rng.below(10) as usize, &[], &mut rng);
         for _ in 0..(4 + rng.below(8)) {
             let set = if rng.chance(1, 2) { s1 } else { s2 };
             feed(&mut cx, set, rng.below(20) as usize, &[], &mut rng);
